@@ -306,18 +306,22 @@ def rule_member_qual(chk, prog, tier):
     inc = prog.require_func('mkincdecexpr', 'expr.c')
     QC, QV = ev(prog, 'QUALCONST'), ev(prog, 'QUALVOLATILE')
     M = errmodels()
-    for access in ('TPERIOD', 'TARROW'):
+    mk = prog.require_func('mkunaryexpr', 'expr.c')
+    for access, baselv in (('TPERIOD', 1), ('TPERIOD', 0), ('TARROW', 1)):
         for aq in (0, QC, QV, QC | QV):
             for mq in (0, QC):
+              for mty in ('int', 'array'):
+                if not baselv and (aq or mq): continue
                 def runner(it):
                     w = World(prog, it=it, target='x86_64-sysv')
-                    st = w.mkstruct(size=8, align=4)
+                    st = w.mkstruct(size=16, align=4)
                     m = Obj('member', 'heap')
-                    m.f[('name',)] = Ptr(it.mkstr(list(b'm'), 'm'), (0,)); m.f[('type',)] = w.t('int'); m.f[('qual',)] = mq; m.f[('offset',)] = 4
-                    m.f[('bits', 'before')] = 0; m.f[('bits', 'after')] = 0; m.f[('next',)] = None
+                    m.f[('name',)] = Ptr(it.mkstr(list(b'm'), 'm'), (0,)); m.f[('qual',)] = mq; m.f[('offset',)] = 4
+                    m.f[('type',)] = w.t('int') if mty == 'int' else it.call('mkarraytype', [w.t('int'), 0, 3])
+                    m.f[('bits', 'before')] = 0; m.f[('bits', 'after')] = 0; m.f[('bitfield',)] = 0; m.f[('next',)] = None
                     st.obj.f[('u', 'structunion', 'members')] = Ptr(m, ())
                     if access == 'TPERIOD':
-                        base = w.temp(st, 's'); base.obj.f[('lvalue',)] = 1; base.obj.f[('qual',)] = aq
+                        base = w.temp(st, 's'); base.obj.f[('lvalue',)] = baselv; base.obj.f[('qual',)] = aq
                     else:
                         base = w.temp(w.mkptr(st, aq), 'p')
                     seq = [access, 'TIDENT', 'TSEMICOLON']
@@ -333,19 +337,35 @@ def rule_member_qual(chk, prog, tier):
                     load()
                     e = it.call(pf, [Ptr(Obj('scope', 'heap'), ()), base])
                     q = it.load(e.obj, ('qual',))
-                    # ++ on the member must be refused iff const
+                    lv = it.load(e.obj, ('lvalue',))
+                    if mty == 'array':
+                        # the member designator has decayed: the qualifiers are those of the pointed-to element
+                        ety = it.load(e.obj, ('type',))
+                        q = it.load(ety.obj, ('qual',)) if it.load(ety.obj, ('kind',)) == ev(prog, 'TYPEPOINTER') else -1
+                    # ++ on the member must be refused iff const / not an lvalue / an array
                     try:
                         it.call(inc, [ev(prog, 'TINC'), e, 1]); incok = True
                     except Terminal:
                         incok = False
-                    return q, incok, it.load(e.obj, ('lvalue',))
+                    try:
+                        it.call(mk, [ev(prog, 'TBAND'), e]); addrok = True
+                    except Terminal:
+                        addrok = False
+                    return q, incok, lv, addrok
                 runs = explore(prog, runner, M, max_runs=4)
                 if len(runs) != 1 or runs[0].outcome != 'return':
                     raise AnalysisBroken('member access: %s' % [(x.outcome, x.detail) for x in runs])
-                q, incok, lval = runs[0].value
+                q, incok, lval, addrok = runs[0].value
                 want = aq | mq
-                r.instance(q == want and incok == (not (want & QC)) and lval, 'memberqual:%s,aggregate=%d,member=%d' % (access[1:].lower(), aq, mq), 'expr.c:%s' % pf.get('line'),
-                           'member lvalue has qualifiers %#x, must be %#x (aggregate | member); ++ on it %s' % (q, want, 'accepted' if incok else 'diagnosed'))
+                key = 'memberqual:%s%s%s,aggregate=%d,member=%d' % (access[1:].lower(), '' if baselv else ',rvalue', '' if mty == 'int' else ',array', aq, mq)
+                if mty == 'int':
+                    want_lv = bool(baselv); want_inc = want_lv and not (want & QC)
+                else:
+                    want_lv = False; want_inc = False          # the array has decayed: a pointer value, not an lvalue (6.3.2.1p3)
+                r.instance(q == want and incok == want_inc and bool(lval) == want_lv and addrok == bool(baselv), key, 'expr.c:%s' % pf.get('line'),
+                           'member designator: qualifiers %#x (must be %#x: aggregate | member), %s (must be %s); ++ on it %s (must be %s); & on it %s (must be %s)' % (
+                               q, want, 'an lvalue' if lval else 'not an lvalue', 'an lvalue' if want_lv else 'not an lvalue', 'accepted' if incok else 'diagnosed', 'accepted' if want_inc else 'diagnosed',
+                               'accepted' if addrok else 'diagnosed', 'accepted' if baselv else 'diagnosed'))
     r.exhaustive = True
 
 
@@ -1122,6 +1142,111 @@ def rule_restrict(chk, prog, tier):
     r.exhaustive = False
 
 
+# ------------------------------------------------------------------ C10.t bit-field designators
+
+def rule_bitfield_designators(chk, prog, tier):
+    r = chk.rule('C10.t', 'an expression that designates a member declared with a width is a bit-field designator whatever the width (also when it fills its storage unit): & applied to it, and typeof / typeof_unqual of it, are diagnosed; '
+                 'members declared without a width are ordinary lvalues',
+                 floor=40, oracle='C11 6.5.3.2p1, 6.5.3.4p1; C23 6.7.2.5p3')
+    am = prog.require_func('addmember', 'decl.c')
+    pf = prog.require_func('postfixexpr', 'expr.c')
+    mk = prog.require_func('mkunaryexpr', 'expr.c')
+    ds = prog.require_func('declspecs', 'decl.c')
+    M = errmodels()
+    SZ = {'uchar': 1, 'int': 4, 'uint': 4, 'long': 8}
+    for kind in ('TYPESTRUCT', 'TYPEUNION'):
+        for tname in ('uchar', 'int', 'uint', 'long'):
+            for width in (None, 1, SZ[tname] * 8 - 1, SZ[tname] * 8):
+                for lead in (False, True):
+                    def runner(it):
+                        w = World(prog, it=it, target='x86_64-sysv')
+                        t = w.mkstruct(size=0, align=0, kind=kind); t.obj.f[('flexible',)] = 0
+                        b = Obj('builder', 'local')
+                        b.f[('type',)] = t; b.f[('last',)] = Ptr(t.obj, ('u', 'structunion', 'members')); b.f[('bits',)] = 0; b.f[('pack',)] = 0
+                        if lead:
+                            it.call(am, [Ptr(b, ()), StructVal({('type',): w.t('int'), ('qual',): 0, ('expr',): None}), Ptr(it.mkstr(list(b'l'), 'l'), (0,)), 0, 2 ** 64 - 1])
+                        it.call(am, [Ptr(b, ()), StructVal({('type',): w.t(tname), ('qual',): 0, ('expr',): None}), Ptr(it.mkstr(list(b'm'), 'm'), (0,)), 0, (2 ** 64 - 1) if width is None else width])
+                        t.obj.f[('incomplete',)] = 0
+                        base = w.temp(t, 's'); base.obj.f[('lvalue',)] = 1; base.obj.f[('qual',)] = 0
+                        seq = ['TPERIOD', 'TIDENT', 'TSEMICOLON']
+                        stt = {'i': 0}
+                        tokobj = it.gobj('tok')
+                        def load():
+                            k = seq[min(stt['i'], len(seq) - 1)]
+                            tokobj.f[('kind',)] = ev(prog, k)
+                            tokobj.f[('lit',)] = Ptr(it.mkstr(list(b'm'), 'm'), (0,)) if k == 'TIDENT' else None
+                            tokobj.f[('loc', 'file')] = None; tokobj.f[('loc', 'line')] = 1; tokobj.f[('loc', 'col')] = 1
+                        it.models['next'] = lambda i2, a, e: (stt.__setitem__('i', stt['i'] + 1), load(), None)[2]
+                        it.models['free'] = lambda i2, a, e: None
+                        load()
+                        e = it.call(pf, [Ptr(Obj('scope', 'heap'), ()), base])
+                        isbf = it.load(e.obj, ('kind',)) == ev(prog, 'EXPRBITFIELD')
+                        lv = bool(it.load(e.obj, ('lvalue',)))
+                        try:
+                            it.call(mk, [ev(prog, 'TBAND'), e]); addrok = True
+                        except Terminal:
+                            addrok = False
+                        return isbf, lv, addrok
+                    runs = explore(prog, runner, M, max_runs=4)
+                    key = 'designator:%s{%s%s m%s}.m' % (kind[4:].lower(), 'int l; ' if lead else '', tname, '' if width is None else ' : %d' % width)
+                    if len(runs) != 1 or runs[0].outcome != 'return':
+                        raise AnalysisBroken('%s: %s' % (key, [(x.outcome, x.detail) for x in runs][:2]))
+                    isbf, lv, addrok = runs[0].value
+                    want = width is not None
+                    r.instance(isbf == want and lv and addrok == (not want), key, 'expr.c:%s' % pf.get('line'),
+                               'must be %s; cproc builds %s, & on it is %s' % ('a bit-field designator, & diagnosed' if want else 'an ordinary lvalue, & accepted', 'a bit-field designator' if isbf else 'an ordinary lvalue', 'accepted' if addrok else 'diagnosed'))
+    # typeof / typeof_unqual ( expression )
+    for op in ('TTYPEOF', 'TTYPEOF_UNQUAL'):
+        for operand in ('int', 'bitfield', 'bitfield-full', 'array'):
+            def runner(it):
+                w = World(prog, it=it, target='x86_64-sysv')
+                x = w.temp(w.t('int'), 'x'); x.obj.f[('lvalue',)] = 1; x.obj.f[('qual',)] = 0
+                if operand == 'int': e0 = x; want_t = w.t('int')
+                elif operand.startswith('bitfield'):
+                    e0 = w.mkexpr('EXPRBITFIELD', w.t('int'), x); e0.obj.f[('lvalue',)] = 1; e0.obj.f[('qual',)] = 0
+                    e0.obj.f[('u', 'bitfield', 'bits', 'before')] = 0; e0.obj.f[('u', 'bitfield', 'bits', 'after')] = 0 if operand == 'bitfield-full' else 29
+                    want_t = None
+                else:
+                    at = it.call('mkarraytype', [w.t('int'), 0, 3])
+                    a = w.temp(at, 'a'); a.obj.f[('lvalue',)] = 1; a.obj.f[('qual',)] = 0
+                    e0 = it.call('decay', [a]); want_t = at
+                toks = [op, 'TLPAREN', 'X', 'TRPAREN', 'TIDENT', 'TSEMICOLON']
+                tokobj = it.gobj('tok'); st = {'i': 0}
+                def cur(): return toks[min(st['i'], len(toks) - 1)]
+                def load():
+                    k = cur()
+                    tokobj.f[('kind',)] = ev(prog, 'TIDENT' if k == 'X' else k); tokobj.f[('lit',)] = Ptr(it.mkstr(list(b'x'), 'x'), (0,)) if k in ('TIDENT', 'X') else None
+                    tokobj.f[('loc', 'file')] = None; tokobj.f[('loc', 'line')] = 1; tokobj.f[('loc', 'col')] = 1
+                def nxt(i2, a, e): st['i'] += 1; load(); return None
+                def expect(i2, a, e):
+                    if tokobj.f[('kind',)] != a[0] or cur() == 'X': raise Terminal('error', 'expected token')
+                    nxt(i2, a, e); return None
+                def consume(i2, a, e):
+                    if tokobj.f[('kind',)] == a[0] and cur() != 'X': nxt(i2, a, e); return 1
+                    return 0
+                def expr_(i2, a, e):
+                    if cur() != 'X': raise Terminal('error', 'expected expression')
+                    nxt(i2, a, e); return e0
+                it.models.update({'next': nxt, 'expect': expect, 'consume': consume, 'expr': expr_, 'typename': lambda i2, a, e: None, 'attr': lambda i2, a, e: 0, 'gnuattr': lambda i2, a, e: 0,
+                                  'scopegetdecl': lambda i2, a, e: None, 'free': lambda i2, a, e: None,
+                                  'fatal': lambda i2, a, e: (_ for _ in ()).throw(Terminal('fatal', a)), 'error': lambda i2, a, e: (_ for _ in ()).throw(Terminal('error', cmodel.fmt_of(i2, a, 1)))})
+                load()
+                sc = Obj('sc', 'local'); sc.f[()] = UNINIT; al = Obj('al', 'local'); al.f[()] = UNINIT
+                qt = it.call(ds, [Ptr(Obj('scope', 'heap'), ()), Ptr(sc, ()), None, Ptr(al, ())])
+                t = qt.f[('type',)]
+                return (t is not None and want_t is not None and t.obj is want_t.obj), cur()
+            runs = explore(prog, runner, {}, max_runs=4, on_unsupported='keep')
+            key = 'typeof:%s(%s)' % (op[1:].lower(), operand)
+            if len(runs) != 1 or runs[0].outcome not in ('return', 'terminal:error'):
+                raise AnalysisBroken('%s: %s' % (key, [(x.outcome, x.detail) for x in runs][:2]))
+            if operand.startswith('bitfield'):
+                r.instance(runs[0].outcome == 'terminal:error', key, 'decl.c:%s' % ds.get('line'), 'typeof of a bit-field designator must be diagnosed; cproc accepts it')
+            else:
+                r.instance(runs[0].outcome == 'return' and runs[0].value == (True, 'TIDENT'), key, 'decl.c:%s' % ds.get('line'),
+                           'must denote the type of the operand (the array type, not the decayed pointer); got %s %s' % (runs[0].outcome, runs[0].value if runs[0].outcome == 'return' else runs[0].detail))
+    r.exhaustive = False
+
+
 # ------------------------------------------------------------------ C10.r builtin names are only callable
 
 def rule_builtin_names(chk, prog, tier):
@@ -1242,6 +1367,7 @@ def run(chk, tier):
     chk.guard('C10.q', lambda: rule_structdecl_syntax(chk, prog, tier))
     chk.guard('C10.r', lambda: rule_builtin_names(chk, prog, tier))
     chk.guard('C10.s', lambda: rule_paramlist_syntax(chk, prog, tier))
+    chk.guard('C10.t', lambda: rule_bitfield_designators(chk, prog, tier))
     from props import c08
     chk.guard('C08.e', lambda: c08.rule_valist(chk, prog, tier))        # va_arg of a structure or union (unsupported) is diagnosed
     from props import c05
